@@ -51,7 +51,7 @@ def act(op, md=None, size=0, code=0, msg=None, det=0):
 def base(proto, shape, codec="proto", **kw):
     c = dict(proto=proto, shape=shape, codec=codec, comp="", opts=[], sizes=[3] if shape in ("unary", "sstream") else [3, 0],
              script=[], reqmd={}, reqwant={}, maxrecv=0, maxsend=0, sched=[], eofwith=False, trunc=0, trunck=0, timeout="",
-             accept="", tag="", binpad=False, exact=False, corrupt=False, boundary=0, wsclose=False, exactrep=False, reqct="")
+             accept="", tag="", binpad=False, exact=False, corrupt=False, boundary=0, wsclose=False, exactrep=False, reqct="", noise=False, wsfrag=0)
     c.update(kw)
     return c
 
@@ -189,6 +189,15 @@ def fam_limits(rnd, tier):
                             c["sizes"] = [0]
                             c["script"] = [act("send", size=size)] + ([act("send", size=L)] if shape == "sstream" else []) + [act("ret", code=0)]
                             out.append(c)
+    # incompressible content: the gzip form is LARGER than the message, so a message within the limit is over it on the
+    # wire (HTTP content-encoding; on gRPC the compressed frame length is checked first, as grpc-go does: not judged)
+    for L in ([64, 256, 1000] if tier == "quick" else [64, 100, 256, 1000, 5000]):
+        for size in [L - 30, L - 1, L, L + 1, L + 40]:
+            for shape in ["unary", "cstream"]:
+                c = base("http", shape, codec="proto", comp="gzip", maxrecv=L, exact=True, noise=True, tag="limits")
+                c["sizes"] = [size] if shape == "unary" else [L // 2, size]
+                c["script"] = recv_all(c) + ([act("send", size=1)] if shape != "unary" else []) + [act("ret", code=0)]
+                out.append(c)
     # a message of many small records whose size limit falls exactly on a record boundary: an implementation that
     # cuts the (decompressed) message at the limit still decodes something
     for proto in ["http", "grpc", "grpcweb", "grpcwebtext"]:
@@ -231,7 +240,7 @@ def fam_ws(rnd, tier, part):
                     if not cs(shape) and len(sizes) != 1:
                         continue
                     for wsclose in ([False, True] if cs(shape) else [False]):
-                        c = base("ws", shape, codec="json", sizes=sizes, tag="stream", wsclose=wsclose)
+                        c = base("ws", shape, codec="json", sizes=sizes, tag="stream", wsclose=wsclose, wsfrag=rnd.choice([0, 0, 1, 7, 64]))
                         sc = []
                         if cs(shape):
                             nrep = rnd.randint(0, len(sizes)) if shape == "bidi" else 0
@@ -252,9 +261,10 @@ def fam_ws(rnd, tier, part):
                         out.append(c)
     else:   # limits
         for L in ([30, 64, 1000] if tier == "quick" else [24, 30, 64, 200, 1000, 5000]):
-            for size in [L - 1, L, L + 1, 50 * L]:
+            for size in [L - 1, L, L + 1, 3 * L, 50 * L]:
+              for frag in [0, L // 2, L]:       # the limit is on the message, however it is cut into frames
                 for shape in ["unary", "cstream", "bidi"]:
-                    c = base("ws", shape, codec="json", maxrecv=L, exact=True, tag="limits", wsclose=cs(shape))
+                    c = base("ws", shape, codec="json", maxrecv=L, exact=True, tag="limits", wsclose=cs(shape), wsfrag=frag)
                     c["sizes"] = [size] if shape == "unary" else [L // 2 + 12, size]
                     c["script"] = recv_all(c) + [act("ret", code=0)]     # (a reply after the client's close could not be delivered)
                     out.append(c)
